@@ -33,15 +33,24 @@ func (o Op) Coq() string {
 	panic("unknown op " + o.T)
 }
 
+// Coq20 renders the op as a C20.Model.op20.
+func (o Op) Coq20() string {
+	if o.T == "O" {
+		return "Reopen"
+	}
+	return "(Base " + o.Coq() + ")"
+}
+
 type Params struct {
-	Blocks    int   // number of successful writes to aim at
-	Base      int64 // height of the first block
-	NKeys     int
-	NIn       int
-	NKn       int
-	Reopen    bool // generate "O" steps
-	StartSuf  bool // first block carries a suffrage change and a policy (like a genesis block)
-	BadWrites bool // sometimes try a write at a wrong height
+	Blocks       int   // number of successful writes to aim at
+	Base         int64 // height of the first block
+	NKeys        int
+	NIn          int
+	NKn          int
+	Reopen       bool // generate "O" steps
+	StartSuf     bool // first block carries a suffrage change and a policy (like a genesis block)
+	BadWrites    bool // sometimes try a write at a wrong height
+	ReopenAlways bool // close + reopen after every block and after every merge
 }
 
 func RandomParams(r *vh.Rand, reopen bool) Params {
@@ -160,6 +169,16 @@ func Generate(r *vh.Rand, w *World, p Params) ([]Op, Cfg) {
 			}
 		}
 	}
+	if p.ReopenAlways {
+		var ops2 []Op
+		for _, op := range ops {
+			ops2 = append(ops2, op)
+			if op.T != "O" {
+				ops2 = append(ops2, Op{T: "O"})
+			}
+		}
+		ops = ops2
+	}
 	lo := p.Base - 2
 	if lo < -1 {
 		lo = -1
@@ -202,10 +221,14 @@ type StepResult struct {
 }
 
 // Coq renders (op, ok, [(index, new value) of the reads that changed since prev]).
-func (s StepResult) Coq(op Op, prev []int64) string {
+func (s StepResult) Coq(op Op, prev []int64, c20 bool) string {
 	var sb strings.Builder
 	sb.WriteString("(")
-	sb.WriteString(op.Coq())
+	if c20 {
+		sb.WriteString(op.Coq20())
+	} else {
+		sb.WriteString(op.Coq())
+	}
 	sb.WriteString(", ")
 	sb.WriteString(vh.Bool(s.Ok))
 	sb.WriteString(", [")
@@ -225,7 +248,7 @@ func (s StepResult) Coq(op Op, prev []int64) string {
 }
 
 // CoqCase renders one history as a C19.Model.case / C20.Model.case term.
-func CoqCase(cfg Cfg, init []int64, ops []Op, steps []StepResult) string {
+func CoqCase(cfg Cfg, init []int64, ops []Op, steps []StepResult, c20 bool) string {
 	var sb strings.Builder
 	sb.WriteString("(mkCase " + cfg.Coq() + " [")
 	for i, v := range init {
@@ -240,7 +263,7 @@ func CoqCase(cfg Cfg, init []int64, ops []Op, steps []StepResult) string {
 		if i > 0 {
 			sb.WriteString("; ")
 		}
-		sb.WriteString(steps[i].Coq(ops[i], prev))
+		sb.WriteString(steps[i].Coq(ops[i], prev, c20))
 		prev = steps[i].Reads
 	}
 	sb.WriteString("])")
@@ -300,7 +323,32 @@ func Run(w *World, ops []Op, cfg Cfg, cache int, onStep func(i int, d *DB, s *Sp
 		}
 	}
 	for i, op := range ops {
+		var rawNames, rawBefore []string
+		var before []int64
+		if op.T == "O" {
+			rawNames, rawBefore = ImplReader{D: d}.RawAll(cfg)
+			before = ReadAll(ImplReader{D: d}, cfg, nil)
+		}
 		ok, e := d.Apply(op)
+		if op.T == "O" && e != nil {
+			mism = append(mism, Mismatch{Step: i, Read: "reopen-error: " + e.Error(), Impl: ResErr, Want: 0})
+			return init, steps, mism, nil
+		}
+		if op.T == "O" {
+			// the property's own statement: every read, and every raw byte, is the same after the reopen
+			_, rawAfter := ImplReader{D: d}.RawAll(cfg)
+			for j := range rawBefore {
+				if rawBefore[j] != rawAfter[j] {
+					mism = append(mism, Mismatch{Step: i, Read: "reopen-bytes:" + rawNames[j], Impl: int64(len(rawAfter[j])), Want: int64(len(rawBefore[j]))})
+				}
+			}
+			after := ReadAll(ImplReader{D: d}, cfg, nil)
+			for j := range before {
+				if before[j] != after[j] {
+					mism = append(mism, Mismatch{Step: i, Read: "reopen-read:" + names[j], Impl: after[j], Want: before[j]})
+				}
+			}
+		}
 		if e != nil {
 			return init, steps, mism, fmt.Errorf("step %d (%s): %w", i, op.T, e)
 		}
